@@ -544,8 +544,11 @@ class UnionProvider(LoaderProvider, DumperProvider):
         literal_dumper: Dumper,
         literal_cases: Sequence[Any],
     ) -> Dumper:
+        # since True == 1 and Decimal(1) == 1
+        literal_cases_with_types = [(type(case), case) for case in literal_cases]
+
         def union_dumper_with_literal(data):
-            if data in literal_cases:
+            if (type(data), data) in literal_cases_with_types:
                 return literal_dumper(data)
             return dumper_type_dispatcher.dispatch(type(data))(data)
 
